@@ -357,7 +357,7 @@ fn configs(tier: &str, rng: &mut Rng) -> Vec<Cfg> {
             let s = size as usize;
             let counts: Vec<usize> = if size <= 7 { vec![0, 1, s.saturating_sub(1), s, s + 1, 2 * s + 1] } else { vec![1, s - 1, s + 1] };
             for c in counts {
-                if !thorough && rng.pct(55) {
+                if !thorough && rng.pct(25) {
                     continue;
                 }
                 let codec = codecs[rng.usize(3)];
@@ -377,7 +377,7 @@ fn configs(tier: &str, rng: &mut Rng) -> Vec<Cfg> {
     }
     // mixed payload sizes inside one stream: a few large messages among tiny ones, total below the frame
     // limit so that every possible batch still fits into one frame
-    let n_mixed = if thorough { 260 } else { 14 };
+    let n_mixed = if thorough { 260 } else { 40 };
     for k in 0..n_mixed {
         let n = rng.range(3, 8) as usize;
         let mut sizes: Vec<usize> = (0..n).map(|_| rng.below(48) as usize).collect();
@@ -403,8 +403,8 @@ fn configs(tier: &str, rng: &mut Rng) -> Vec<Cfg> {
         push(codec, comp, batch, n, 0, &mut v);
         v.last_mut().unwrap().sizes = Some(sizes);
     }
-    if thorough {
-        for _ in 0..1400 {
+    {
+        for _ in 0..(if thorough { 1400 } else { 120 }) {
             let codec = codecs[rng.usize(3)];
             let comp = comps[rng.usize(comps.len())];
             let batch = if rng.pct(70) { Some((*rng.pick(&[1u32, 2, 3, 5, 7, 16, 100]), *rng.pick(&[0u64, 1, 5, 50, 3_600_000]))) } else { None };
